@@ -48,10 +48,9 @@ fn main() {
     let mut w = std::io::BufWriter::with_capacity(1 << 20, sink);
     let mut out = |s: String| {
         let _ = writeln!(w, "{}", s);
-        if s.starts_with('#') {
-            // marker before a case that may abort the process: make sure it reaches the reader
-            let _ = w.flush();
-        }
+        // every line reaches the reader at once: the check's stall watchdog and the attribution of an
+        // abort / hang to a case rely on it
+        let _ = w.flush();
     };
     match args.get(1).map(|s| s.as_str()) {
         Some("gen") => {
